@@ -1038,7 +1038,8 @@ def f12(ctx):
                      mod.loc(fn))
             continue
         n += 1
-        body = [s_ for s_ in fn.body if not (isinstance(s_, ast.Expr) and isinstance(s_.value, ast.Constant))]
+        body = [s_ for s_ in fn.body if not (isinstance(s_, ast.Expr) and isinstance(s_.value, ast.Constant))
+                and not isinstance(s_, ast.Pass)]
         ok = len(body) == 1 and isinstance(body[0], ast.Return) and isinstance(body[0].value, ast.Call) and \
             isinstance(body[0].value.func, ast.Attribute) and is_name(body[0].value.func.value, pp[0].arg) and \
             body[0].value.func.attr == m
